@@ -204,3 +204,15 @@ Theorem C11_source_saturating_add :
   forall a b, 0 <= a <= max64 -> 0 <= b <= max64 -> src_saturating_add a b = go_sat_add a b.
 Proof. exact tie_saturating_add. Qed.
 Print Assumptions C11_source_saturating_add.
+
+(* how the status fields and the Age field are written: CacheStatus.ApplyTo (the status field set, the legacy field set for
+   the statuses served from the cache and removed otherwise — a marker received from upstream is not passed on) and
+   SetAgeHeader (the age at the clock reading, saturating, in whole seconds) are those of internal/header.go and
+   internal/helpers.go on this run (Generated/SrcHeaderProgs.v) *)
+From HC.Generated Require Import SrcHeaderProgs.
+From HC.Proofs Require Import TieHeaderProgs.
+Theorem C11_source_header_writers :
+  (forall s h, src_apply_to (status_value s) (if status_legacy s then bs "1" else []) h = apply_status s h) /\
+  (forall f now h, src_set_age_header f now h = hset (bs "Age") (age_header_value f now) h).
+Proof. split; [exact tie_apply_to|exact tie_set_age_header]. Qed.
+Print Assumptions C11_source_header_writers.
